@@ -135,6 +135,7 @@ type searcher struct {
 	outMu       sync.Mutex
 	outcomes    map[string]int64
 	byzAlpha    map[int][]msg
+	future      []msg
 }
 
 func newSearcher(c *cfg, r *ev.Run, what string) *searcher {
@@ -145,10 +146,24 @@ func newSearcher(c *cfg, r *ev.Run, what string) *searcher {
 	for i := range s.tuples {
 		s.tuples[i] = map[[nC]int64]struct{}{}
 	}
-	for r := 0; r <= c.R; r++ {
-		for k := 0; k < 3; k++ {
-			s.byzAlpha[r*3+k] = c.byzMsgs(r, k)
+	for rk := 0; rk < (c.H+1)*hStride; rk++ {
+		if !c.inBound(rk) {
+			continue
 		}
+		for k := 0; k < 3; k++ {
+			s.byzAlpha[rk*3+k] = c.byzMsgs(rk, k)
+		}
+	}
+	// future-height alphabet (sent while the receivers are still at height 0): a proposal of the Byzantine-only value
+	// for every round of height 1 (legitimate or forged, depending on who proposes there) and a prevote / precommit
+	// for it in round 0 of height 1
+	if c.H >= 1 {
+		w, b := vid(c.byz), int8(c.byz)
+		for r := 0; r <= c.RH[1]; r++ {
+			s.future = append(s.future, msg{kind: kProp, round: rkOf(1, r), sender: b, val: w, vr: -1})
+		}
+		s.future = append(s.future, msg{kind: kPrevote, round: rkOf(1, 0), sender: b, val: w, vr: -1},
+			msg{kind: kPrecommit, round: rkOf(1, 0), sender: b, val: w, vr: -1})
 	}
 	return s
 }
@@ -220,7 +235,10 @@ func (c *cfg) byzVals() []vid {
 	seen := map[vid]bool{}
 	var out []vid
 	byzProposes := false
-	for r := 0; r <= c.R; r++ {
+	for r := 0; r < (c.H+1)*hStride; r++ {
+		if !c.inBound(r) {
+			continue
+		}
 		p := c.proposer(r)
 		if p == c.byz {
 			byzProposes = true
@@ -243,7 +261,7 @@ func (c *cfg) byzMsgs(round, kind int) []msg {
 	if kind == kProp {
 		if c.proposer(round) == c.byz {
 			for _, v := range c.byzVals() {
-				for vr := -1; vr < round; vr++ {
+				for vr := -1; vr < round%hStride; vr++ {
 					out = append(out, msg{kind: kProp, round: int8(round), sender: b, val: v, vr: int8(vr)})
 				}
 			}
@@ -295,10 +313,11 @@ func (s *searcher) step(g *gstate, slot int, in uint32, trace []opt) {
 	if s.transitions.Add(1)&0x3fff == 0 && s.r.OutOfTime() {
 		s.abort.Store(true) // internal deadline: the current k is abandoned and reported as not completed
 	}
+	prevH := g.nd[slot].hgt
 	g.nd[slot] = e.to
 	n := e.to
 	for _, o := range e.out {
-		if int(o>>13&15) > c.R {
+		if !c.inBound(int(o >> 13 & 15)) {
 			continue
 		}
 		for s2 := 0; s2 < nC; s2++ {
@@ -308,7 +327,7 @@ func (s *searcher) step(g *gstate, slot int, in uint32, trace []opt) {
 		}
 	}
 	for _, t := range e.tmo {
-		if int(t)/3 <= c.R {
+		if c.inBound(int(t) / 3) {
 			g.tmo[slot] |= 1 << t
 		}
 	}
@@ -317,17 +336,29 @@ func (s *searcher) step(g *gstate, slot int, in uint32, trace []opt) {
 			s.report(v.key, v.what, g, trace, slot)
 		}
 	}
-	if n.decided {
-		// a decided validator leaves the height: nothing more is delivered to it
-		g.tmo[slot] = 0
-		g.infl = dropTo(g.infl, slot)
-		g.wh = dropTo(g.wh, slot)
+	if n.hgt > prevH {
+		// committed: agreement per height
+		h := prevH
 		for s2 := 0; s2 < nC; s2++ {
-			if s2 != slot && g.nd[s2].decided && g.nd[s2].decVal != n.decVal {
+			if o := g.nd[s2]; s2 != slot && o.dec[h] != none && o.dec[h] != n.dec[h] {
 				s.report("agreement two-correct-validators-decided-differently",
-					fmt.Sprintf("validator %d decided V%d@%d, validator %d decided V%d@%d", c.correct[slot], n.decVal, n.decRound, c.correct[s2], g.nd[s2].decVal, g.nd[s2].decRound), g, trace, slot)
+					fmt.Sprintf("height %d: validator %d decided V%d@%d, validator %d decided V%d@%d", h, c.correct[slot], n.dec[h], n.decR[h]%hStride, c.correct[s2], o.dec[h], o.decR[h]%hStride), g, trace, slot)
 			}
 		}
+		if n.decided {
+			// finished the last height run: nothing more is delivered to it
+			g.tmo[slot] = 0
+			g.infl = dropTo(g.infl, slot)
+			g.wh = dropTo(g.wh, slot)
+			return
+		}
+		// it left height h: messages and timeouts of that height are dead for it (the vote counter refuses them); the
+		// driver starts the next height at once
+		lim := uint32(n.hgt) * hStride
+		g.infl = dropOld(g.infl, slot, lim)
+		g.wh = dropOld(g.wh, slot, lim)
+		g.tmo[slot] &^= 1<<(lim*3) - 1
+		s.step(g, slot, inStart, trace)
 		return
 	}
 	// Stale timeouts (older round, or propose/prevote timeout after the step moved on) are verified to be
@@ -336,12 +367,22 @@ func (s *searcher) step(g *gstate, slot int, in uint32, trace []opt) {
 		t := uint32(bits.TrailingZeros32(b))
 		b &^= 1 << t
 		r, st := int8(t/3), int8(t%3)
-		if n.sum.round > r || (n.sum.round == r && st < 2 && n.sum.step > st) {
+		if n.sum.rk > r || (n.sum.rk == r && st < 2 && n.sum.step > st) {
 			if e2 := c.next(n, inTmo|t); e2.to == n && len(e2.out) == 0 && len(e2.tmo) == 0 {
 				g.tmo[slot] &^= 1 << t
 			}
 		}
 	}
+}
+
+func dropOld(a []uint32, slot int, lim uint32) []uint32 {
+	out := a[:0]
+	for _, f := range a {
+		if int(f&3) != slot || f>>2>>13&15 >= lim {
+			out = append(out, f)
+		}
+	}
+	return out
 }
 
 func dropTo(a []uint32, slot int) []uint32 {
@@ -389,17 +430,21 @@ func (s *searcher) devs(g *gstate, D opt, cls int16, buf []opt) []opt {
 		return out
 	}
 	c := s.c
-	var live uint8
-	maxEntered := 0
+	// liveAt[h]: undecided validators whose height is <= h (a message of height h is dead for the others)
+	var liveAt [2]uint8
+	maxEntered, minH := 0, 9
 	for i := 0; i < nC; i++ {
-		if !g.nd[i].decided {
-			live |= 1 << uint(i)
+		if n := g.nd[i]; !n.decided {
+			for h := int(n.hgt); h <= c.H; h++ {
+				liveAt[h] |= 1 << uint(i)
+			}
+			minH = min(minH, int(n.hgt))
 		}
 		maxEntered = max(maxEntered, int(g.nd[i].maxRound))
 	}
-	maxEntered = min(maxEntered, c.R)
-	byz := func(cl int) {
-		for _, m := range s.byzAlpha[cl] {
+	inject := func(ms []msg) {
+		for _, m := range ms {
+			live := liveAt[m.round/hStride]
 			for sub := uint8(1); sub < 1<<nC; sub++ {
 				if sub&live == sub {
 					out = append(out, opt{t: oByz, m: m, sub: sub})
@@ -408,10 +453,16 @@ func (s *searcher) devs(g *gstate, D opt, cls int16, buf []opt) []opt {
 		}
 	}
 	if D.t == oDeliver {
-		byz(int(cls))
-	} else {
-		for cl := 0; cl < (maxEntered+1)*3; cl++ {
-			byz(cl)
+		inject(s.byzAlpha[int(cls)])
+		if c.H >= 1 && cls < hStride*3 && cls%3 == kPrecommit {
+			inject(s.future) // just before height 0 can be decided
+		}
+	} else if minH <= c.H {
+		for cl := minH * hStride * 3; cl < (maxEntered+1)*3; cl++ {
+			inject(s.byzAlpha[cl]) // empty for classes out of bound
+		}
+		if c.H >= 1 && minH == 0 && maxEntered < hStride {
+			inject(s.future)
 		}
 	}
 	for i := 0; i < nC; i++ {
@@ -572,9 +623,16 @@ func (s *searcher) leaf(g *gstate) {
 	und, mr := 0, int8(0)
 	for i := 0; i < nC; i++ {
 		n := g.nd[i]
-		if n.decided {
-			dec = append(dec, fmt.Sprintf("V%d@r%d", n.decVal, n.decRound))
-		} else {
+		for h := 0; h <= s.c.H; h++ {
+			if n.dec[h] != none {
+				if h == 0 {
+					dec = append(dec, fmt.Sprintf("V%d@r%d", n.dec[h], n.decR[h]))
+				} else {
+					dec = append(dec, fmt.Sprintf("h%d:V%d@r%d", h, n.dec[h], n.decR[h]%hStride))
+				}
+			}
+		}
+		if !n.decided {
 			und++
 		}
 		mr = max(mr, n.maxRound)
@@ -596,7 +654,7 @@ func (s *searcher) report(key, what string, g *gstate, trace []opt, slot int) {
 		paths[fmt.Sprint("validator ", s.c.correct[i])] = s.c.pathStrings(g.nd[i])
 	}
 	s.r.Violate(key, map[string]any{
-		"what": what, "part": s.what, "config": s.c.name, "powers": s.c.powers, "byzantine": s.c.byz, "round_bound": s.c.R,
+		"what": what, "part": s.what, "config": s.c.name, "powers": s.c.powers, "byzantine": s.c.byz, "round_bound": s.c.R, "round_bounds_per_height": s.c.RH,
 		"k": s.k, "validator": s.c.correct[slot], "deviations_from_benign_schedule": tr,
 		"inputs_per_validator_(equivalent_representative)": paths,
 	})
